@@ -2,6 +2,7 @@ package cli
 
 import (
 	"fmt"
+	"os"
 	"path/filepath"
 	"sort"
 	"strings"
@@ -26,9 +27,11 @@ type WriteCase struct {
 	Tasks     []string `json:"tasks"`
 	Nested    bool     `json:"nested"`
 	PreCache  bool     `json:"pre_cache"`
+	// SpokLink: the spokfile is a symbolic link to real.spok (which holds the text)
+	SpokLink bool `json:"spok_link,omitempty"`
 }
 
-var writeTreePool = []string{"main.go", "pkg/a.go", "pkg/sub/b.go", "docs/readme.md", "nested/dir/x.txt", "Makefile", "data/", "nested/.hidden"}
+var writeTreePool = []string{"main.go", "pkg/a.go", "pkg/sub/b.go", "docs/readme.md", "nested/dir/x.txt", "Makefile", "data/", "nested/.hidden", "spokfile.tmp", "spokfile.bak", ".spokfile.swp", "spokfile~"}
 var writeFlags = []string{"--show", "--vars", "--fmt", "--init", "--force", "--quiet", "--json", "--debug"}
 var safeCmds = []string{"echo hi", "true", "printf x", "echo {{.V}}", "echo a b  c", "test -f main.go", "echo done 1>&2"}
 var invalidSources = map[string][]string{
@@ -54,6 +57,7 @@ func genWrite(t *rapid.T) WriteCase {
 	c.DotEnv = rapid.IntRange(0, 3).Draw(t, "dotenv") == 3
 	c.Nested = rapid.IntRange(0, 2).Draw(t, "nested") == 2
 	c.PreCache = rapid.IntRange(0, 2).Draw(t, "precache") == 2
+	c.SpokLink = rapid.IntRange(0, 5).Draw(t, "spoklink") == 5
 	var taskNames []string
 	switch k := rapid.IntRange(0, 9).Draw(t, "class"); {
 	case k < 5:
@@ -127,7 +131,11 @@ func execWrite(s *ev.Shard, b *sandbox.Box, c WriteCase) *rp.Fail {
 		}
 	}
 	if c.Class != "absent" {
-		files["spokfile"] = c.Src
+		if c.SpokLink {
+			files["real.spok"] = c.Src
+		} else {
+			files["spokfile"] = c.Src
+		}
 	}
 	if c.GitIgnore != nil {
 		files[".gitignore"] = *c.GitIgnore
@@ -141,6 +149,13 @@ func execWrite(s *ev.Shard, b *sandbox.Box, c WriteCase) *rp.Fail {
 	}
 	if err := writeProject(b, b.Proj, files); err != nil {
 		return &rp.Fail{Sig: "harness", Msg: err.Error()}
+	}
+	if c.Class != "absent" && c.SpokLink {
+		lp := filepath.Join(b.Proj, "spokfile")
+		if err := os.Symlink("real.spok", lp); err != nil {
+			return &rp.Fail{Sig: "harness", Msg: err.Error()}
+		}
+		_ = os.Lchown(lp, 65534, 65534)
 	}
 	if err := writeProject(b, b.Home, map[string]string{"beside.txt": "beside"}); err != nil {
 		return &rp.Fail{Sig: "harness", Msg: err.Error()}
@@ -183,6 +198,10 @@ func execWrite(s *ev.Shard, b *sandbox.Box, c WriteCase) *rp.Fail {
 			return &rp.Fail{Sig: "init-over-existing-spokfile", Size: size, Msg: fmt.Sprintf("%s: a spokfile already exists in the current directory but --init succeeded", desc)}
 		}
 	case hasFlag(c.Flags, "--fmt") && c.Class == "valid":
+		if c.SpokLink {
+			// the text lives behind the link: the link itself stays what it is
+			spokRel = "proj/real.spok"
+		}
 		allowed[spokRel] = "modified"
 	}
 	for _, ch := range changes {
@@ -194,7 +213,7 @@ func execWrite(s *ev.Shard, b *sandbox.Box, c WriteCase) *rp.Fail {
 		}
 		sig := "wrote-outside-permitted-set"
 		switch {
-		case ch.Path == spokRel:
+		case ch.Path == spokRel || ch.Path == "proj/spokfile" || ch.Path == "proj/real.spok":
 			sig = "spokfile-touched"
 		case strings.HasSuffix(ch.Path, ".gitignore"):
 			sig = "gitignore-touched"
